@@ -662,10 +662,6 @@ func (n *vfC13Net) Connectedness(p peer.ID) network.Connectedness {
 		held = false
 	}
 	s.connReads = append(s.connReads, vfC13ConnRead{peer: p, held: held})
-	if g := s.gate; g != nil {
-		s.gate = nil
-		g(held)
-	}
 	res := network.NotConnected
 	for _, c := range n.ConnsToPeer(p) {
 		if c.(*vfC13Conn).limited {
@@ -675,6 +671,11 @@ func (n *vfC13Net) Connectedness(p peer.ID) network.Connectedness {
 		} else {
 			res = network.Connected
 		}
+	}
+	// the gate sits between the read and whatever the caller does with the answer
+	if g := s.gate; g != nil {
+		s.gate = nil
+		g(held)
 	}
 	return res
 }
